@@ -252,7 +252,7 @@ def validate_fs_model():
         names = ["a", "a/b", "b", "a/b/c", "b/x"]
         for step in range(6):
             nm = rnd.choice(names)
-            op = rnd.choice(["mkdir", "symlink", "write", "touch"])
+            op = rnd.choice(["mkdir", "symlink", "write", "touch", "unlink"])
             real = os.path.join(base, "jail", nm)
             fk = F.FakePath(fs, real, os.path.join(base, "jail"))
             tgt = rnd.choice([".", "..", "a", "../..", "b"])
@@ -265,6 +265,8 @@ def validate_fs_model():
                 elif op == "write":
                     with open(real, "wb") as fh:
                         fh.write(b"x")
+                elif op == "unlink":
+                    os.unlink(real)
                 else:
                     pathlib_touch(real)
             except OSError as ex:
@@ -276,6 +278,8 @@ def validate_fs_model():
                     fk.symlink_to(eng, tgt)
                 elif op == "write":
                     fk.open(eng, "wb")
+                elif op == "unlink":
+                    fk.unlink(eng)
                 else:
                     fk.touch(eng)
             except Exception as ex:  # noqa
